@@ -539,9 +539,15 @@ Definition spec_is_failure (k : wkind) (d : derr) : bool :=
       end
     | WRedisCmd | WRedisIgnoredCmd | WRedisPipeline | WRedisReal =>
       match d with DRedisNil | DWrappedRedisNil | DCtxCanceled | DWrappedCanceled => false | _ => true end
-    | WSqlExec | WSqlPredicate =>
+    | WSqlExec | WSqlPredicate | WSqlM _ _ =>
       match d with
       | DSqlNoRows | DSqlTxDone | DCtxCanceled | DWrappedCanceled | DSqlAcceptable => false
+      | DSqlCustom i n => negb ((1 <=? i) && (i <=? n))     (* accepted by one of the n WithAcceptable options *)
+      | DSqlScanFail =>                                     (* a scan failure does not count against the database *)
+        match k with
+        | WSqlM (MQueryRow | MQueryRowPartial | MQueryRows | MQueryRowsPartial) _ => false
+        | _ => true
+        end
       | _ => true
       end
     end
@@ -553,7 +559,7 @@ Definition wcall_prop (c : wcall) (o : wobs) : bool :=
   | WSqlPredicate => seen_eqb (wo_seen o) (SBool (negb (spec_is_failure k (wc_d c))))
   | WRedisIgnoredCmd => (wo_invoked o =? 1) && (wo_succ o + wo_fail o + wo_drop o =? 0)
   | _ =>
-    if (match k with WGrpcServerStream => false | _ => wc_ctxdone c end) then
+    if (match k with WGrpcServerStream | WSqlM _ false => false | _ => wc_ctxdone c end) then
       (wo_invoked o =? 0) && (wo_succ o =? 0) && (wo_fail o =? 0) && (wo_drop o =? 0) &&
       seen_eqb (wo_seen o) SCtxErr
     else if wc_rej c then
